@@ -57,6 +57,14 @@ fn main() {
                 }
             }
         }
+        // sequences and k-mers over every generated codec (bounded glue)
+        #[cfg(not(kani))]
+        for name in gen::HARNESSES {
+            match panic::catch_unwind(|| gen::seq_dispatch(name)) {
+                Ok(v) => { total += 1; for l in v { if fails.len() < 20 { fails.push(format!("{} seq {}", name, l)); } } }
+                Err(_) => { if fails.len() < 20 { fails.push(format!("{} seq panicked", name)); } }
+            }
+        }
         println!("{{\"passed\":{},\"failures\":[{}]}}", total, fails.iter().map(|l| js(l)).collect::<Vec<_>>().join(","));
     }
 }
